@@ -221,6 +221,36 @@ func runC01(ctx *ev.Ctx) {
 			}
 		}
 	}
+	// AVPs beyond 64 KiB (far below the 24-bit limit): one leaf, one group whose small members add up
+	for _, name := range []string{"default/app4", "generated/app0"} {
+		c := ConfigByName(name)
+		if c == nil || !ctx.Mine() {
+			continue
+		}
+		oct, ok := c.A.Plain[atoms.KOctet]
+		if !ok || len(c.A.Groups) == 0 {
+			continue
+		}
+		hd := c.Headers(1)[0]
+		leaf := func(n int, fill byte) atoms.N {
+			return atoms.N{Code: oct.Code, Flags: mflag(oct.Must), V: atoms.Val{K: atoms.KOctet, S: bytes.Repeat([]byte{fill}, n)}}
+		}
+		var members []atoms.N
+		for i := 0; i < 70; i++ {
+			members = append(members, leaf(1000+i%3, byte(i)))
+		}
+		for _, tree := range [][]atoms.N{{leaf(65527, 1)}, {leaf(65528, 2)}, {leaf(70001, 3), leaf(5, 4)}, {c.groupNode(0, members), leaf(3, 5)}} {
+			t := TreeCase{Config: name, Hdr: hd, Tree: tree, Note: "AVP longer than 64 KiB"}
+			ctx.Eval(ev.Mix(t.Key(), 78))
+			if what := c01Eval(c, t); what != "" {
+				if len(what) > 600 {
+					what = what[:600] + "..."
+				}
+				ctx.Report("", generalise(what), what+" | case: "+name+" "+t.Note, nil)
+			}
+		}
+	}
+	ctx.Rule += " Four trees per configuration carry AVPs longer than 64 KiB (a leaf of 65527 / 65528 / 70001 bytes, a group of 70 members of about 1 KB)."
 	ctx.Rule += " One configuration is also exercised with a dictionary that grows after first use: the parser decodes every AVP of the alphabet while it is still undefined, the defining dictionary is loaded, then the round trips run on that parser."
 	ctx.Rule += " Every case is written with WriteTo into a destination that, before it consumes the bytes, lets another message pass through WriteTo on another writer; and every wire image is read a second time overlapping with a complete read from another source (nested inside the reader's third Read call, i.e. after the header and half of the body), after a message too large for the pooled read buffer has been read."
 	ctx.Assume = []string{"refcodec (independent RFC 6733 encoder) is correct; it has its own self-test", "values are drawn from finite boundary-first alphabets per data type; nothing outside them is claimed"}
